@@ -808,6 +808,23 @@ def check_turn(case, rec=None):
                             case, f"clamp-{key}")
         if val == b * mult and b < 50:
             clamp.append(key)
+    # "retrieval hits USED": whatever T2 derives from its hits (residual graph nudges) may only come from the first
+    # k_used ranked hits, not from hits beyond the slice budget
+    if "T2" in results:
+        r2 = results["T2"]
+        ku = int(r2.metrics["k_used"])
+        used_texts = [(getattr(h_, "text", "") or "").lower() for h_ in list(r2.retrieved)[:ku]]
+        labels_of = {}
+        for spec in case["graphs"].values():
+            for n_ in spec["nodes"]:
+                if n_["label"]:
+                    labels_of.setdefault(n_["id"], set()).add(str(n_["label"]).lower())
+        for d_ in list(getattr(r2, "graph_deltas_residual", []) or []):
+            nid = d_.get("id")
+            if not any(lb in t_ for lb in labels_of.get(nid, ()) for t_ in used_texts):
+                raise Violation(f"residual nudge for node {nid!r} is not justified by the {ku} hit(s) the slice budget "
+                                f"t2_k={slice_budgets.get('t2_k')} allows T2 to use ({len(r2.retrieved)} retrieved): a hit beyond "
+                                "the budget was used", case, "t2-uses-hits-beyond-budget")
     if rec is not None:
         reason = ev.get("reason") if ev else None
         labels = [f"stage_end={stage_end}", f"reason={reason}", f"mode={case['mode']}"]
